@@ -118,10 +118,10 @@ func (s *Solver) roundTrip() []string {
 		s.lastErr = err.Error()
 		return []string{"(error \"write to solver failed\")"}
 	}
-	// watchdog: z3's nlsat does not always honour :timeout; a query that overruns twice its cap plus
-	// a grace period loses its process (the answer is then "unknown" and the process is restarted)
+	// watchdog: z3's nlsat does not always honour :timeout; a query that overruns three times its cap plus
+	// a minute loses its process (the answer is then "unknown" and the process is restarted)
 	proc := s.cmd.Process
-	wd := time.AfterFunc(time.Duration(2*s.timeoutMs)*time.Millisecond+20*time.Second, func() { proc.Kill() })
+	wd := time.AfterFunc(time.Duration(3*s.timeoutMs)*time.Millisecond+60*time.Second, func() { proc.Kill() })
 	defer wd.Stop()
 	var lines []string
 	for {
